@@ -156,4 +156,17 @@ func VerifC04_AnnouncedSyncFault() {
 	// this Next could never return: reported as a hang)
 	again, aerr := rcv.Next(context.Background())
 	verif_Assert(aerr == nil && again.Cid == chain[0], "after a failed announce-triggered sync the CID can be announced again and is delivered")
+	if aerr != nil {
+		return
+	}
+	// the earlier failure does not impair the later sync of the same publisher:
+	// it runs and reports exactly once (success once the fault is gone, the same
+	// error while the publisher still has no usable address)
+	hnd.pendingMsg.Store(&again)
+	hnd.asyncSyncAdChain(context.Background())
+	events3 := v.drain()
+	verif_Assert(len(events3) == 1 && events3[0].Cid == chain[0], "a later sync of the same publisher runs and reports once, whatever failed before")
+	if len(events3) == 1 && kind != c04NoSyncer {
+		verif_Assert(events3[0].Err == nil && v.latest() == chain[0], "once the fault is gone the re-announced head is synced")
+	}
 }
